@@ -27,6 +27,18 @@ def buildMask (e : Enum) (sel : Nat) : Nat :=
   ([e.latitude, e.longitude, e.azimuth, e.distance, e.distanceIn, e.reducedlength, e.geodesicscale, e.area, e.longUnroll].zipIdx.foldl
     (fun acc p => if sel.testBit p.2 then acc ||| p.1 else acc) 0)
 
+mutual
+/-- does the term read a local / field that was never assigned? -/
+def T.hasUninit : T → Bool
+  | .uninit _ => true
+  | .ap _ args => T.anyUninit args
+  | .sym _ => false
+  | .zero => false
+def T.anyUninit : List T → Bool
+  | [] => false
+  | a :: t => a.hasUninit || T.anyUninit t
+end
+
 structure LenOut where
   s12b : Option T
   m12b : Option T
@@ -131,22 +143,6 @@ def genInverse (c : InvCfg) (wred : Nat) (br : InvBranch) (outmask : Nat) (o : O
 
 /-- the value `GenInverse` returns -/
 def genInverseRet (c : InvCfg) (wred : Nat) (br : InvBranch) (outmask : Nat) : T := (invCore c br (outmask &&& wred)).a12
-
-/-- the conditions on the masks passed to `Lengths` under which every output of `GenInverse` is formed in one canonical
-    way, checked at one (reduced) mask `m`:  the requested lengths are still requested of `Lengths`, `GEODESICSCALE` is
-    requested of it exactly when the caller wants it, and on the meridional branch `m12x` is always obtained -/
-def canonAt (c : InvCfg) (m : Nat) : Bool :=
-  [Out.s12, .m12, .M12, .M21].all (fun o => (!want c.e m o || want c.e (c.newt m &&& c.red) o) && (!want c.e m o || want c.e (c.mer m &&& c.red) o)) &&
-  (want c.e (c.newt m &&& c.red) .M12 == want c.e m .M12) && (want c.e (c.mer m &&& c.red) .M12 == want c.e m .M12) &&
-  want c.e (c.mer m &&& c.red) .m12
-
-/-- the series version forms `J12` in two ways; it is canonical when `DISTANCE` is passed to `Lengths` whenever
-    `REDUCEDLENGTH` or `GEODESICSCALE` is (the "canonical lengthmask") -/
-def canonJ12At (c : InvCfg) (m : Nat) : Bool :=
-  (!wantRG c.e (c.newt m &&& c.red) || want c.e (c.newt m &&& c.red) .s12) && (!wantRG c.e (c.mer m &&& c.red) || want c.e (c.mer m &&& c.red) .s12)
-
-/-- the meridional branch compares `s12x` with 0: it must have been obtained -/
-def merDistanceAt (c : InvCfg) (m : Nat) : Bool := want c.e (c.mer m &&& c.red) .s12
 
 /-! ### rhumb -/
 
